@@ -122,7 +122,7 @@ func zzH_C20_pool_add()  { zzC20Pool(0) }
 func zzH_C20_pool_head() { zzC20Pool(1) }
 
 func zzC20Pool(firstOp int) {
-	ops := zzverif.Bound("poolOps", 3, 4)
+	ops := zzverif.Bound("poolOps", 3, 3)
 	var nonce [zzC20pAccounts]uint64
 	var bal [zzC20pAccounts]*big.Int
 	for i := range nonce {
@@ -163,9 +163,9 @@ func zzC20Pool(firstOp int) {
 		case 0: // a transaction arrives, then the loop's promotion step runs
 			who := byte(zzverif.Choose("tx.sender", zzC20pAccounts))
 			n := uint64(zzverif.U8("tx.nonce"))
-			zzverif.Assume(n < 4)
+			zzverif.Assume(n < uint64(zzverif.Bound("txNonceBelow", 4, 5)))
 			price := int64(zzverif.U8("tx.price"))
-			zzverif.Assume(price >= 1 && price <= 3)
+			zzverif.Assume(price >= 1 && price <= int64(zzverif.Bound("txPriceUpTo", 3, 4)))
 			tx := types.NewTransaction(n, to, new(big.Int), 30000, big.NewInt(price), []byte{who})
 			_, err := pool.add(tx, false)
 			if err == nil {
